@@ -323,6 +323,12 @@ def hitsOverBudget (E : Env) (s : PState) : Bool :=
 def topIsLR (E : Env) (s : PState) : Bool :=
   E.flags.leftRec && (match s.rstack with | [] => false | r :: _ => r.leftRecursive)
 
+/-- `builder.BasicLatinLookup` (model of the Go function in builder.go): entry `r` is the decision of the
+    general procedure for the rune `r` — on the node as the builder emits it (chars and range
+    bounds already lower-cased when `ignoreCase`). -/
+def basicLatinLookup (E : Env) (c : ClassDesc) : List Bool :=
+  (List.range 128).map (fun r => classContains E c r)
+
 /-! ### the interpreter -/
 
 section
